@@ -541,6 +541,16 @@ func c07Monitor(c RCaseR, o rObs) (string, string) {
 			}
 		}
 	}
+	// the same domain restriction read off the built rule itself (perturbed lines carry no intent):
+	// every byte of the string buffer — the string values and keys — is printable ASCII other than
+	// a quote character (the key separator 0x01 is allowed)
+	if v, _ := decodeArd(o.WF); v != nil {
+		for _, b := range v.buf {
+			if b != 0x01 && (b <= 0x20 || b >= 0x7f || b == '\'' || b == '"') {
+				return "", ""
+			}
+		}
+	}
 	if o.CErr != nil {
 		return "C07: ToCommandLine failed on a rule that Build accepted: " + o.CErr.Error(), "cmdline-error"
 	}
